@@ -38,9 +38,9 @@ Proof. exact load_agree. Qed.
    PARTIAL, exactly: (a) the ROOT element's attributes are validated against the placeholder version Autosar_4_0_1
    (the file version is read from them), so attrs_valid is stated for v401 there; (b) for plain (CString) values StrictValid
    states max_length of the unescaped text; entity syntax is a property of the bytes before unescaping and is not in
-   StrictValid (see C08_entity_syntax_refuted);
-   (c) StrictValid does not say that an element which must carry a value has exactly one text item — that fails,
-   see C08_value_required_refuted and C08_single_text_run_refuted. *)
+   StrictValid (the signed references "&#x+41;" / "&#+65;" found here are repaired: fix 68ba067, Examples fixed_entity_sign_hex / _dec);
+   (c) StrictValid does not say that an element which must carry a value has a text item — that fails, see
+   C08_value_required_refuted (known finding empty-value-never-checked); at most one is C08_single_value. *)
 Theorem C08_accepted_is_valid_partial :
   forall (T : tables) (tab_el tab_at tab_en : nametab) (check_fn : N -> list N -> res bool)
          (float_parse : list N -> option N) (bs : list N) (t : etree) (st : pstate),
@@ -70,8 +70,17 @@ Theorem C08_no_trailing_data :
   l_rest (p_lex st) = [] /\ l_deferred (p_lex st) = None.
 Proof. exact load_strict_consumed. Qed.
 
-(* Holes of strict validation, witnessed on the REAL tables (LOAD = load over Spec/SpecReal.v and the real name
-   tables; Xml/ParserExamples.v).  Each was also replayed on the implementation (strict load_buffer returns Ok). *)
+(* [U] a character data element (content mode Characters) holds at most one value, in every node of a loaded tree, in
+   both modes (fix 3656060: text continuing after a comment / processing instruction used to become a second value) *)
+Theorem C08_single_value :
+  forall (T : tables) (tab_el tab_at tab_en : nametab) (check_fn : N -> list N -> res bool)
+         (float_parse : list N -> option N) (strict : bool) (bs : list N) (t : etree) (st : pstate),
+  load strict T tab_el tab_at tab_en check_fn float_parse bs = Val (Ret t st) -> single_valued T t.
+Proof. exact load_single_valued. Qed.
+
+(* The remaining hole of strict validation, witnessed on the REAL tables (LOAD = load over Spec/SpecReal.v and the real
+   name tables; Xml/ParserExamples.v) and replayed on the implementation (strict load_buffer returns Ok).
+   Repaired since: signed character references (68ba067), second text run (3656060) — Examples fixed_* there. *)
 (* <SHORT-NAME/> : an element that must carry a value has no text item and is never value-checked *)
 Theorem C08_value_required_refuted :
   exists bs, match LOAD true bs with
@@ -79,19 +88,3 @@ Theorem C08_value_required_refuted :
              | _ => False
              end.
 Proof. exact ParserExamples.C08_value_required_refuted. Qed.
-
-(* <CATEGORY>a<!--c-->b</CATEGORY> : a character-data element with two text items *)
-Theorem C08_single_text_run_refuted :
-  exists bs, match LOAD true bs with
-             | Val (Ret t _) => any_node (chars_node_with (Nat.eqb 2)) t = true
-             | _ => False
-             end.
-Proof. exact ParserExamples.C08_single_text_run_refuted. Qed.
-
-(* "&#x+41;" is accepted as a character reference and becomes "A" *)
-Theorem C08_entity_syntax_refuted :
-  exists bs, match LOAD true bs with
-             | Val (Ret t _) => any_node (has_text (BS "A")) t = true
-             | _ => False
-             end.
-Proof. exact ParserExamples.C08_entity_syntax_refuted. Qed.
